@@ -141,8 +141,10 @@ def run_shot(inp):
                 key = mps.measure_single_shot(basis=basis if rng.random() < 0.7 else basis.lower(), rng=gen)
             except ValueError:
                 status = "dead"
+            except Exception as e:  # noqa: BLE001  (reported through tie and oracle, never a harness crash)
+                status = "raised:" + type(e).__name__
             ps = gen.calls
-            impl = " ".join(f"{ib.fmt(p[0])} {ib.fmt(p[1])}" for p in ps) + (f" ; done {key}" if status == "done" else " ; dead")
+            impl = " ".join(f"{ib.fmt(p[0])} {ib.fmt(p[1])}" for p in ps) + (f" ; done {key}" if status == "done" else f" ; {status}")
             req = f"shot {basis} | {' '.join(map(str, sigma))} | {seg}"
             forced_p = [float(p[c]) for p, c in zip(ps, sigma)]
             edge = any(0.0 < q < 1e-12 for q in forced_p)
@@ -159,6 +161,8 @@ def run_shot(inp):
                     probs.append("a p= vector does not sum to 1")
             else:
                 born = abs(amps[code]) ** 2 / nrm
+                if status != "dead":
+                    probs.append(f"measure_single_shot {status} on branch {sigma}, basis {basis}")
                 if born > 1e-9:
                     probs.append(f"branch {sigma} of Born probability {born:.3g} cannot be sampled (loop died after {len(ps)} sites)")
             out.append({"req": req, "impl": impl, "edge": bool(edge), "kind": f"shot-{kind}",
@@ -199,11 +203,17 @@ def run_measure(inp):
         exc = "ValueError"
         if "NaN" in str(e):
             exc = "nan"
+    except Exception as e:  # noqa: BLE001
+        exc = "raised:" + type(e).__name__
     finally:
         MPS.shift_orthogonality_center_right = orig_shift
     # 1. the call protocol: shifts issued / ValueError
     out.append({"req": f"mcall {L} {site}", "impl": ("err ValueError" if exc == "ValueError" else "ok " + " ".join(map(str, shifts))).strip(),
                 "oracle": None, "kind": "measure-call", "sig": f"mcall:{L}:{site}", "nontrivial": 0 < site < L})
+    if exc and exc.startswith("raised:"):
+        out.append({"req": None, "impl": None, "kind": "measure", "oracle": {"ok": False, "detail": f"MPS.measure {exc} (site {site}, basis {basis})"},
+                    "sig": f"measure-raised:{exc}"})
+        return out
     if exc == "ValueError" or not gen.calls:
         return out
     p = gen.calls[0]
@@ -349,6 +359,54 @@ def run_weak(inp):
             "sig": f"weak:{L}:{shots}:{bool(noise)}:{len(spec)}:{inp.get('basis_state')}", "nontrivial": True}
 
 
+def _weak_seq_child(conn, spec, L, shots, noises):
+    try:
+        import warnings as w
+
+        w.simplefilter("ignore")
+        from mqt.yaqs import simulator
+        from mqt.yaqs.core.data_structures.noise_model import NoiseModel
+        from mqt.yaqs.core.data_structures.simulation_parameters import WeakSimParams
+
+        sp = WeakSimParams(shots=shots, show_progress=False)
+        outs = []
+        for noise in noises:
+            nm = NoiseModel([{"name": noise[0], "sites": [i], "strength": noise[1]} for i in range(L)]) if noise else None
+            simulator.run(MPS(L, state="zeros"), build_circuit(spec, L), sp, nm, parallel=False)
+            outs.append({"results": {int(k): int(v) for k, v in sp.results.items()}, "shots_after": int(sp.shots)})
+        conn.send({"runs": outs})
+    except BaseException as e:  # noqa: BLE001
+        conn.send({"error": f"{type(e).__name__}: {e}"})
+    finally:
+        conn.close()
+
+
+def run_weak_seq(inp):
+    """several weak runs on the *same* WeakSimParams object (D14: stale measurements of a noisy run were summed in)"""
+    L, spec, shots, noises = inp["L"], inp["circuit"], inp["shots"], inp["noises"]
+    ctx = mp.get_context("fork")
+    a, b = ctx.Pipe(duplex=False)
+    pr = ctx.Process(target=_weak_seq_child, args=(b, spec, L, shots, noises))
+    pr.start()
+    b.close()
+    res = a.recv() if a.poll(120) else {"error": "timeout"}
+    pr.join(5)
+    if pr.is_alive():
+        pr.kill()
+    probs = []
+    if "error" in res:
+        probs.append(f"weak run sequence raised {res['error']}")
+    else:
+        for n, r in enumerate(res["runs"]):
+            tot = sum(r["results"].values())
+            if tot != shots:
+                probs.append(f"run {n} ({'noisy' if noises[n] else 'noise-free'}): counts sum to {tot}, {shots} shots were asked")
+            if r["shots_after"] != shots:
+                probs.append(f"run {n}: sim_params.shots is {r['shots_after']} afterwards")
+    return {"req": None, "impl": None, "kind": "weak-seq", "oracle": {"ok": not probs, "detail": "; ".join(probs) or str(res)[:300]},
+            "sig": f"weak-seq:{L}:{shots}:{[bool(x) for x in noises]}", "nontrivial": True}
+
+
 def run_spec_choice(inp):
     g = np.random.default_rng(inp["sub"])
     bad = 0
@@ -415,6 +473,8 @@ def gen(rng, tier):
     for i in range(8):
         yield {"kind": "encode", "L": rng.choice([1, 2, 5, 17, 33, 64, 70]), "pattern": rng.choice(["rand", "rand", "ones", "last"]),
                "sub": rng.randrange(1 << 30)}
+    yield {"kind": "weak-seq", "L": 2, "circuit": random_circuit(rng, 2), "shots": rng.choice([3, 6]),
+           "noises": rng.choice([[["pauli_x", 0.2], None], [None, ["pauli_z", 0.1], None], [None, None]])}
     for i in range(n_weak):
         L = rng.choice([1, 2, 3, 4])
         noise = None
@@ -434,6 +494,8 @@ def run(inp):
         return run_encode(inp)
     if k == "weak":
         return run_weak(inp)
+    if k == "weak-seq":
+        return run_weak_seq(inp)
     if k == "spec-choice":
         return run_spec_choice(inp)
     raise ValueError(k)
